@@ -483,8 +483,15 @@ fn make_transform_group(
                 ParsedDirective::Filter(f, _) => filter.push(f),
                 ParsedDirective::Output(o, _) => output.push(o),
                 ParsedDirective::Tag(t, _) => tag.push(t),
-                ParsedDirective::Transform(xform, _) => {
-                    break Some(Box::new(make_transform_group(xform, directive_iter)?));
+                ParsedDirective::Transform(_, pos) => {
+                    // Re-transforming an already transformed value is not supported yet:
+                    // report it here instead of reaching `unimplemented!()` in the frontend.
+                    return Err(ParseError::UnsupportedDirectivePosition(
+                        "@transform".to_string(),
+                        "re-transforming a @fold @transform value is currently not supported"
+                            .to_string(),
+                        pos,
+                    ));
                 }
                 ParsedDirective::Fold(..)
                 | ParsedDirective::Optional(..)
